@@ -18,6 +18,9 @@ try:
     viol = it.explore(h, max_paths=maxp)
 except Inconclusive as e:
     print('INCONCLUSIVE', e, getattr(it, 'cur_stmt', None)); viol = []
+except Exception as e:
+    import traceback; traceback.print_exc(limit=-4)
+    print('ENGINE ERROR at', getattr(it, 'cur_stmt', None)); viol = []
 s = it.stats
 print('paths', s['paths'], 'infeasible', s['infeasible'], 'queries', s['solver_calls'], 'stmts', s['stmts'], 'time %.1f' % (time.time() - t))
 print('cover', it.cover_hits)
